@@ -127,3 +127,7 @@ fn c18_event_is_mirrored_to_log_once_with_its_level_and_target_iff_no_collector_
     }
     kani::cover!(want && max == 0, "C18.reachable.mirrored_although_tracing_max_level_is_off");
 }
+
+// Measured and dropped: the same treatment of the span lifecycle steps (`span!` at five levels, enter / exit / drop, a
+// logger that counts records per target) did not finish in 900 s (Span's drop glue and Dispatch handles); `Span::log`
+// stays under not_covered.
